@@ -501,21 +501,6 @@ Proof.
 Qed.
 
 (* --- where the consumer is, seen from a Flush/Close caller --- *)
-Inductive phase := PLoop | PPre (k : fkind) | PPost (k : fkind) | PDone (cl : bool) | PExit.
-Definition phase_of (c : cpc) : phase :=
-  match c with
-  | CSelect => PLoop
-  | CDrain FTick => PLoop
-  | CDrain k => PPre k
-  | CGate _ (KWrite _ MLoop) => PLoop
-  | CGate _ (KWrite _ (MDrain FTick)) => PLoop
-  | CGate _ (KWrite _ (MDrain k)) => PPre k
-  | CGate _ (KFlushed FTick) => PLoop
-  | CGate _ (KFlushed k) => PPost k
-  | CComplete cl => PDone cl
-  | CExit => PExit
-  end.
-
 Definition no_ctl (p : list uop) : Prop := forallb (fun o => negb (is_ctl o)) p = true.
 Definition is_call_pc (p : upc) : bool := match p with USend | UWait _ => true | _ => false end.
 
@@ -912,13 +897,12 @@ Proof.
 Qed.
 
 (* --- no deadlock: a caller inside Flush/Close can always be served --- *)
-Lemma writer_no_deadlock_reachable cap bsize progs sched :
-  ctl_discipline progs ->
-  let s := runs (init cap bsize progs) sched in
+Lemma no_deadlock_state c s :
+  Full c s ->
   forall i u, nth_error (us s) i = Some u -> is_call_pc (pc u) = true ->
     (exists b, step s (TC b) <> None) \/ step s (TU i) <> None.
 Proof.
-  intros H s i u En Hpc. destruct (reach_full cap bsize progs sched H) as [c [HI HC]]. fold s in HI, HC.
+  intros [HI HC] i u En Hpc.
   destruct HC as [A B C D E].
   destruct (Nat.eq_dec i c) as [->|Hic]; [|destruct (B _ _ En Hic) as [_ Hn]; congruence].
   unfold ctl_state, progress in C. rewrite En in C. destruct C as [_ C].
@@ -938,4 +922,14 @@ Proof.
     + left. exists BData. discriminate.
     + right. discriminate.
     + exfalso. destruct k; [destruct C as (_ & _ & _ & [P|[P|[P|P]]])|destruct C as (_ & _ & [P|[P|P]])]; discriminate.
+Qed.
+
+Lemma writer_no_deadlock_reachable cap bsize progs sched :
+  ctl_discipline progs ->
+  let s := runs (init cap bsize progs) sched in
+  forall i u, nth_error (us s) i = Some u -> is_call_pc (pc u) = true ->
+    (exists b, step s (TC b) <> None) \/ step s (TU i) <> None.
+Proof.
+  intros H s. destruct (reach_full cap bsize progs sched H) as [c HF]. fold s in HF.
+  now apply (no_deadlock_state c).
 Qed.
